@@ -555,6 +555,63 @@ func ruleFIELD1(c *Ctx) {
 		} else {
 			c.Oblige("fields:name-conflict-checked-for-every-field", f.Pos(), okConf, "the same-struct JSON name conflict is only checked for fields with an explicit name: a tagged field and a later untagged Go field of that name are silently merged")
 		}
+		// whether the embedded structs of an embedded struct are visited must not depend on whether that type was
+		// reached before through a different path: the second arm of a diamond then lists the shared type's direct
+		// fields (which cancel) but not the fields of the types embedded in it (which escape the tie rule)
+		for _, g := range p.CalleeClosure(f, 2) {
+			if g.Body() == nil {
+				continue
+			}
+			gi := g.Info()
+			ast.Inspect(g.Body(), func(nd ast.Node) bool {
+				cl, ok := nd.(*ast.CompositeLit)
+				if !ok {
+					return true
+				}
+				st, ok := gi.TypeOf(cl).Underlying().(*types.Struct)
+				if !ok {
+					return true
+				}
+				idx := -1
+				for i := 0; i < st.NumFields(); i++ {
+					if st.Field(i).Name() == "visitChildren" {
+						idx = i
+					}
+				}
+				if idx < 0 {
+					return true
+				}
+				var val ast.Expr
+				for i, el := range cl.Elts {
+					if kv, ok := el.(*ast.KeyValueExpr); ok {
+						if id, ok := kv.Key.(*ast.Ident); ok && id.Name == "visitChildren" {
+							val = kv.Value
+						}
+					} else if i == idx {
+						val = el
+					}
+				}
+				if val == nil {
+					return true
+				}
+				if tv, ok := gi.Types[val]; ok && tv.Value != nil {
+					return true // the root entry
+				}
+				usesSeen := false
+				ast.Inspect(val, func(m ast.Node) bool {
+					if ix, ok := m.(*ast.IndexExpr); ok {
+						if mt, ok := gi.TypeOf(ix.X).Underlying().(*types.Map); ok {
+							if b, ok := mt.Elem().Underlying().(*types.Basic); ok && b.Kind() == types.Bool {
+								usesSeen = true
+							}
+						}
+					}
+					return true
+				})
+				c.Oblige("fields:revisit-independent-of-other-paths", val.Pos(), !usesSeen, "an embedded struct type reached a second time (through another path) is queued with visitChildren=false: its direct fields are listed and cancel against the first path, but the structs embedded in it are not visited again, so a field two levels below a shared embedded type (a two-level diamond) is emitted although it is ambiguous — `all tied fields dropped` does not hold for that shape")
+				return true
+			})
+		}
 		// both lookup indexes cover every flattened field: each store into byActualName / byFoldedName that sits in a
 		// loop over the flattened fields is a direct statement of the loop body and no branch statement precedes it
 		for _, idxName := range []string{"byActualName", "byFoldedName"} {
